@@ -299,9 +299,23 @@ func (e *Engine) BuildWorld(s *Spec, idx int) (*worldResult, error) {
 		// the tree under test does not support the optional shapes (e.g. array targets):
 		// rebuild the same world without them
 		opt := r.RejectMsg
-		_ = os.RemoveAll(r.Dir)
-		s.StripOptional()
-		r, err = e.buildWorldFiles(s, s.Prop, s.WorldFiles(), idx)
+		// one kind at a time (each on a fresh copy of the world), then all of them
+		kinds := []string{"any", "array", ""}
+		if s.Prop == "C07" {
+			kinds = []string{"typederr", ""}
+		}
+		for _, kind := range kinds {
+			_ = os.RemoveAll(r.Dir)
+			t := s
+			if kind != "" {
+				t = NewSpec(s.Seed, s.Prop)
+			}
+			t.StripOptionalKind(kind)
+			r, err = e.buildWorldFiles(t, t.Prop, t.WorldFiles(), idx)
+			if err != nil || r == nil || !r.Rejected {
+				break
+			}
+		}
 		if r != nil {
 			r.OptionalStripped = firstLines(opt, 3)
 		}
